@@ -354,6 +354,62 @@ fn run(line: &str) -> String {
             let b = vh::bounding_sphere::epos6_of_spheres(&sp);
             format!("{} {:e}", fv(b.center), b.radius)
         }
+        "cell_min_dist" => {
+            // cell_min_dist loc width pos  -> closest_loc, min_distance_squared, min_distance_to_face of the single grid cell [loc, loc+width]
+            let loc = a.v();
+            let w = a.v();
+            let pos = a.v();
+            let sp = vh::space::SpaceHook::new(loc, w, w.max_element() * 1.5);
+            assert!(sp.cell_count() == 1);
+            format!("{} {:e} {:e}", fv(sp.cell_closest_loc(0, pos)), sp.cell_min_distance_squared(0, pos), sp.cell_min_distance_to_face(0, pos))
+        }
+        "cell_with_faces" => {
+            // ConvexCell::with_faces on a cell of a 1D / 2D tessellation (must panic)
+            let dim = a.dim();
+            let vi = VoronoiIntegrator::build(&[DVec3::new(0.3, 0.4, 0.5), DVec3::new(0.7, 0.6, 0.5)], None, DVec3::ZERO, DVec3::ONE, dim, false);
+            let cell = vi.get_cell_at(0).unwrap().clone().with_faces();
+            format!("{}", cell.face_count())
+        }
+        "accessors_periodic" => {
+            // two generators, periodic 3D: cells neighbour their own images; compare accessors with the face integrals
+            let gens = [DVec3::new(0.3, 0.5, 0.5), DVec3::new(0.7, 0.5, 0.5)];
+            let vi = VoronoiIntegrator::build(&gens, None, DVec3::ZERO, DVec3::new(1., 0.4, 0.4), Dimensionality::ThreeD, true).with_faces();
+            let mut bad = 0;
+            for cell in vi.cells_iter() {
+                let fi = cell.compute_face_integrals::<(), meshless_voronoi::integrals::AreaIntegral>(());
+                for (k, f) in fi.iter().enumerate() {
+                    if cell.neighbour(k) != f.right() || cell.shift(k) != f.shift() {
+                        bad += 1;
+                    }
+                }
+            }
+            format!("{}", bad)
+        }
+        "face_loops_vs_faces" => {
+            // per cell: areas reported by the non-symmetric and the symmetric face-integral loops vs the faces stored in the compact
+            // tessellation (three independent loops of the library over the same decomposition)
+            let dim = a.dim();
+            let per = a.b();
+            let gens = [DVec3::new(0.2, 0.3, 0.4), DVec3::new(0.7, 0.6, 0.5), DVec3::new(0.5, 0.8, 0.2), DVec3::new(0.8, 0.2, 0.7)];
+            let mask = [true, false, true, true];
+            let vi = VoronoiIntegrator::build(&gens, Some(&mask), DVec3::ZERO, DVec3::ONE, dim, per);
+            let vor = Voronoi::from(&vi);
+            let ns = vi.compute_face_integrals::<meshless_voronoi::integrals::AreaIntegral>();
+            let sy = vi.compute_face_integrals_sym::<meshless_voronoi::integrals::AreaIntegral>();
+            let mut out = String::new();
+            for (c, cell) in vor.cells().iter().enumerate() {
+                if !mask[c] {
+                    continue;
+                }
+                let stored: f64 = cell.faces(&vor).map(|f| f.area()).sum();
+                let nstored = cell.face_count();
+                let a_ns: f64 = ns.iter().filter(|f| f.left() == c).map(|f| f.integral().area).sum();
+                let n_ns = ns.iter().filter(|f| f.left() == c).count();
+                out += &format!("{} {} {:e} {} {:e} ", c, nstored, stored, n_ns, a_ns);
+            }
+            out += &format!("| {} {}", sy.len(), vor.faces().len());
+            out
+        }
         "space_cells" => {
             // space_cells anchor width max_cell_width -> cdim, then per cell: loc width
             let sp = vh::space::SpaceHook::new(a.v(), a.v(), a.f());
